@@ -1,30 +1,854 @@
-use sysx::*;
-fn main() {
-    // smoke test of the seam against real rusl wrappers
-    let mut plan = PassAll;
-    let (r, log) = run(&mut plan, || rusl::process::get_pid());
-    println!("getpid via seam = {r:?}, real {} ; log {:?}", unsafe { libc::getpid() }, log.iter().map(|c| (name(c.nr), c.ret)).collect::<Vec<_>>());
-    struct ForceRead;
-    impl Plan for ForceRead {
-        fn decide(&mut self, _i: usize, nr: i64, _a: &[u64; 6]) -> Decision {
-            if nr == libc::SYS_read { Decision::Force(-4095) } else { Decision::Pass }
+//! C09 — every raw system-call wrapper of rusl decodes the kernel's return value exactly.
+//!
+//! Fault enumeration over the syscall seam (`sysx`) in FORCED-VALUE mode on the real
+//! wrappers: one invocation per wrapper with harmless arguments; the call is suppressed
+//! (`Decision::Force(v)`) and its raw result forced to `v`, for every `v` of a stated
+//! finite set (all 4095 error values, all small non-negative values, the boundary values
+//! and the large patterns the wrapper's result type can carry).  No sampling.
+//!
+//! Oracle (exactly the property): `Err` ⇔ `v ∈ [-4095,-1]`, carrying errno `-v`;
+//! otherwise `Ok` carrying `v` unchanged where the result type can represent it; exactly one
+//! intercepted system call per invocation (dup2/dup3 may repeat after `-EBUSY` only).
+//!
+//! The wrapper table is checked for completeness against a build-time scan of the rusl
+//! sources (`build.rs` → `SCANNED`).
+
+use common::*;
+use core::num::NonZeroUsize;
+use core::sync::atomic::AtomicU32;
+use rusl::platform::*;
+use rusl::string::unix_str::UnixStr;
+use rusl::unix_lit;
+use serde_json::{json, Value};
+use sysx::{Decision, Plan};
+
+include!(concat!(env!("OUT_DIR"), "/scanned.rs"));
+
+const EBUSY: i64 = 16;
+/// a wrapper that is still re-issuing its call after this many answers is given terminating answers
+const HORIZON: usize = 8;
+
+// ---------------------------------------------------------------------------
+// what a wrapper invocation produced
+
+#[derive(Debug, Clone, Copy, PartialEq)]
+enum Got {
+    /// `Ok`, with the numeric part that comes from the return register (None: `()` or a struct)
+    Ok(Option<i128>),
+    /// `Err`, with its errno code (None: an error without code)
+    Err(Option<i32>),
+}
+
+/// the type in which the wrapper's `Ok` carries the return register
+#[derive(Debug, Clone, Copy, PartialEq)]
+enum Ty {
+    Unit,
+    I32,
+    U32,
+    I64,
+    U64,
+}
+
+/// class of the kernel's success values for the call (selects extra forced values)
+#[derive(Debug, Clone, Copy, PartialEq)]
+enum Dom {
+    /// 0 on success
+    Zero,
+    /// a byte / event / waiter count
+    Count,
+    /// a descriptor, process id, user id, flag word
+    Id,
+    /// a mapping address
+    Addr,
+    /// a file offset
+    Off,
+    /// the call does not return on success (execve): only error values are forced
+    NoReturn,
+}
+
+struct Entry {
+    /// `<top-level module>::<fn>`; a `#variant` suffix distinguishes several invocations of one fn
+    name: &'static str,
+    /// the system call the invocation must issue (harness sanity check)
+    nr: i64,
+    dom: Dom,
+    ty: Ty,
+    /// the signature has no error channel (`get_pid() -> PidT`): only success values are forced
+    infallible: bool,
+    call: fn() -> Got,
+    /// what the (suppressed) kernel would have written for a successful call
+    fill: Option<fn(&[u64; 6])>,
+}
+
+fn base_name(n: &str) -> &str {
+    n.split('#').next().unwrap()
+}
+
+fn unit<T>(r: rusl::Result<T>) -> Got {
+    match r {
+        Ok(_) => Got::Ok(None),
+        Err(e) => Got::Err(e.code.map(|c| c.raw())),
+    }
+}
+fn num<T: Into<i128>>(r: rusl::Result<T>) -> Got {
+    match r {
+        Ok(v) => Got::Ok(Some(v.into())),
+        Err(e) => Got::Err(e.code.map(|c| c.raw())),
+    }
+}
+fn cnt(r: rusl::Result<usize>) -> Got {
+    num(r.map(|v| v as u64))
+}
+fn fdr(r: rusl::Result<Fd>) -> Got {
+    num(r.map(|f| f.value()))
+}
+
+// harmless arguments (every call is suppressed anyway)
+fn fd_a() -> Fd {
+    Fd::try_new(1001).unwrap()
+}
+fn fd_b() -> Fd {
+    Fd::try_new(1002).unwrap()
+}
+fn p1() -> &'static UnixStr {
+    unix_lit!("/tmp/h-sys-does-not-exist-a")
+}
+fn p2() -> &'static UnixStr {
+    unix_lit!("/tmp/h-sys-does-not-exist-b")
+}
+fn mode() -> Mode {
+    Mode::S_IRUSR | Mode::S_IWUSR
+}
+fn sock_unix() -> SocketArgUnix {
+    SocketAddressUnix::try_from_unix(p1()).unwrap()
+}
+fn sock_inet() -> SocketAddressInet {
+    SocketAddressInet::new([127, 0, 0, 1], 0)
+}
+
+unsafe fn zero_at(p: u64, n: usize) {
+    if p != 0 {
+        core::ptr::write_bytes(p as *mut u8, 0, n);
+    }
+}
+fn fill_pipe(a: &[u64; 6]) {
+    unsafe {
+        let p = a[0] as *mut i32;
+        *p = 3;
+        *p.add(1) = 4;
+    }
+}
+fn fill_stat(a: &[u64; 6]) {
+    unsafe { zero_at(a[2], core::mem::size_of::<Stat>()) }
+}
+fn fill_uname(a: &[u64; 6]) {
+    unsafe { zero_at(a[0], core::mem::size_of::<UtsName>()) }
+}
+fn fill_termios(a: &[u64; 6]) {
+    unsafe { zero_at(a[2], core::mem::size_of::<Termios>()) }
+}
+fn fill_ts(a: &[u64; 6]) {
+    unsafe { zero_at(a[1], core::mem::size_of::<TimeSpec>()) }
+}
+fn fill_hid(a: &[u64; 6]) {
+    // struct hiddev_devinfo: 4×u32, 3×s16 (+2 pad), u32
+    unsafe { zero_at(a[2], 28) }
+}
+
+macro_rules! e {
+    ($name:expr, $nr:ident, $dom:ident, $ty:ident, $call:expr) => {
+        Entry { name: $name, nr: libc::$nr, dom: Dom::$dom, ty: Ty::$ty, infallible: false, call: $call, fill: None }
+    };
+    ($name:expr, $nr:ident, $dom:ident, $ty:ident, $call:expr, fill $fill:expr) => {
+        Entry { name: $name, nr: libc::$nr, dom: Dom::$dom, ty: Ty::$ty, infallible: false, call: $call, fill: Some($fill) }
+    };
+    ($name:expr, $nr:ident, $dom:ident, $ty:ident, $call:expr, infallible $fill:expr) => {
+        Entry { name: $name, nr: libc::$nr, dom: Dom::$dom, ty: Ty::$ty, infallible: true, call: $call, fill: $fill }
+    };
+}
+
+fn table() -> Vec<Entry> {
+    use rusl::unistd as u;
+    vec![
+        // ---- unistd
+        e!("unistd::chdir", SYS_chdir, Zero, Unit, || unit(u::chdir(p1()))),
+        e!("unistd::close", SYS_close, Zero, Unit, || unit(u::close(fd_a()))),
+        e!("unistd::copy_file_range", SYS_copy_file_range, Count, U64, || cnt(u::copy_file_range(fd_a(), 0, fd_b(), 0, 16))),
+        e!("unistd::dup2", SYS_dup3, Id, Unit, || unit(u::dup2(fd_a(), fd_b()))),
+        e!("unistd::dup3", SYS_dup3, Id, Unit, || unit(u::dup3(fd_a(), fd_b(), true))),
+        e!("unistd::fcntl_get_file_status", SYS_fcntl, Id, I32, || num(u::fcntl_get_file_status(fd_a()).map(|f| f.bits().value()))),
+        e!("unistd::fcntl_set_file_status", SYS_fcntl, Zero, Unit, || unit(u::fcntl_set_file_status(fd_a(), OpenFlags::O_NONBLOCK))),
+        e!("unistd::get_dents", SYS_getdents64, Count, U64, || {
+            let mut b = [0u8; 64];
+            cnt(u::get_dents(fd_a(), &mut b))
+        }),
+        e!("unistd::get_uid", SYS_getuid, Id, U32, || num(u::get_uid())),
+        e!("unistd::mkdir", SYS_mkdirat, Zero, Unit, || unit(u::mkdir(p1(), mode()))),
+        e!("unistd::mkdir_at", SYS_mkdirat, Zero, Unit, || unit(u::mkdir_at(fd_a(), p1(), mode()))),
+        e!("unistd::mmap", SYS_mmap, Addr, U64, || {
+            cnt(unsafe {
+                u::mmap(
+                    None,
+                    NonZeroUsize::new(4096).unwrap(),
+                    MemoryProtection::PROT_READ,
+                    MapRequiredFlag::MapPrivate,
+                    MapAdditionalFlags::MAP_ANONYMOUS,
+                    None,
+                    0,
+                )
+            })
+        }),
+        e!("unistd::munmap", SYS_munmap, Zero, Unit, || unit(unsafe { u::munmap(0x7000_0000_0000, NonZeroUsize::new(4096).unwrap()) })),
+        e!("unistd::mount", SYS_mount, Zero, Unit, || unit(u::mount(p1(), p2(), FilesystemType::TMPFS, Mountflags::MS_RDONLY, None))),
+        e!("unistd::mount#data", SYS_mount, Zero, Unit, || {
+            unit(u::mount(p1(), p2(), FilesystemType::TMPFS, Mountflags::MS_RDONLY, Some(unix_lit!("size=1m"))))
+        }),
+        e!("unistd::unmount", SYS_umount2, Zero, Unit, || unit(u::unmount(p1()))),
+        e!("unistd::open_raw", SYS_openat, Id, I32, || fdr(unsafe { u::open_raw(p1().as_ptr() as usize, OpenFlags::O_RDONLY) })),
+        e!("unistd::open", SYS_openat, Id, I32, || fdr(u::open(p1(), OpenFlags::O_RDONLY))),
+        e!("unistd::open_mode", SYS_openat, Id, I32, || fdr(u::open_mode(p1(), OpenFlags::O_RDONLY, mode()))),
+        e!("unistd::open_at", SYS_openat, Id, I32, || fdr(u::open_at(fd_a(), p1(), OpenFlags::O_RDONLY))),
+        e!("unistd::open_at_mode", SYS_openat, Id, I32, || fdr(u::open_at_mode(fd_a(), p1(), OpenFlags::O_RDONLY, mode()))),
+        e!("unistd::pipe", SYS_pipe2, Zero, Unit, || unit(u::pipe()), fill fill_pipe),
+        e!("unistd::pipe2", SYS_pipe2, Zero, Unit, || unit(u::pipe2(OpenFlags::O_CLOEXEC)), fill fill_pipe),
+        e!("unistd::read", SYS_read, Count, U64, || {
+            let mut b = [0u8; 8];
+            cnt(u::read(fd_a(), &mut b))
+        }),
+        e!("unistd::readv", SYS_readv, Count, U64, || {
+            let mut b = [0u8; 8];
+            let mut io = [IoSliceMut::new(&mut b)];
+            cnt(u::readv(fd_a(), &mut io))
+        }),
+        e!("unistd::rename", SYS_renameat2, Zero, Unit, || unit(u::rename(p1(), p2()))),
+        e!("unistd::rename_flags", SYS_renameat2, Zero, Unit, || unit(u::rename_flags(p1(), p2(), RenameFlags::empty()))),
+        e!("unistd::rename_at", SYS_renameat2, Zero, Unit, || unit(u::rename_at(fd_a(), p1(), fd_b(), p2()))),
+        e!("unistd::rename_at2", SYS_renameat2, Zero, Unit, || unit(u::rename_at2(fd_a(), p1(), fd_b(), p2(), RenameFlags::empty()))),
+        e!("unistd::lseek", SYS_lseek, Off, I64, || num(u::lseek(fd_a(), 0, u::Whence::SET))),
+        e!("unistd::setgid", SYS_setgid, Zero, Unit, || unit(u::setgid(1000))),
+        e!("unistd::setpgid", SYS_setpgid, Zero, Unit, || unit(u::setpgid(0, 0))),
+        e!("unistd::setsid", SYS_setsid, Id, Unit, || unit(u::setsid())),
+        e!("unistd::setuid", SYS_setuid, Zero, Unit, || unit(u::setuid(1000))),
+        e!("unistd::stat", SYS_newfstatat, Zero, Unit, || unit(u::stat(p1())), fill fill_stat),
+        e!("unistd::statat", SYS_newfstatat, Zero, Unit, || unit(u::statat(fd_a(), p1())), fill fill_stat),
+        e!("unistd::stat_fd", SYS_newfstatat, Zero, Unit, || unit(u::stat_fd(fd_a())), fill fill_stat),
+        e!("unistd::swapon", SYS_swapon, Zero, Unit, || unit(u::swapon(p1(), 0))),
+        e!("unistd::uname", SYS_uname, Zero, Unit, || unit(u::uname()), fill fill_uname),
+        e!("unistd::unlink", SYS_unlinkat, Zero, Unit, || unit(u::unlink(p1()))),
+        e!("unistd::unlink_flags", SYS_unlinkat, Zero, Unit, || unit(u::unlink_flags(p1(), u::UnlinkFlags::empty()))),
+        e!("unistd::unlink_at", SYS_unlinkat, Zero, Unit, || unit(u::unlink_at(fd_a(), p1(), u::UnlinkFlags::at_removedir()))),
+        e!("unistd::rmdir", SYS_unlinkat, Zero, Unit, || unit(u::rmdir(fd_a()))),
+        e!("unistd::unshare", SYS_unshare, Zero, Unit, || unit(u::unshare(CloneFlags::CLONE_FS))),
+        e!("unistd::write", SYS_write, Count, U64, || cnt(u::write(fd_a(), b"x"))),
+        e!("unistd::writev", SYS_writev, Count, U64, || cnt(u::writev(fd_a(), &[IoSlice::new(b"x")]))),
+        // ---- network
+        e!("network::accept_unix", SYS_accept4, Id, I32, || fdr(rusl::network::accept_unix(fd_a(), SocketFlags::SOCK_CLOEXEC).map(|x| x.0))),
+        e!("network::accept_inet", SYS_accept4, Id, I32, || fdr(rusl::network::accept_inet(fd_a(), SocketFlags::SOCK_CLOEXEC).map(|x| x.0))),
+        e!("network::bind_unix", SYS_bind, Zero, Unit, || unit(rusl::network::bind_unix(fd_a(), &sock_unix()))),
+        e!("network::bind_inet", SYS_bind, Zero, Unit, || unit(rusl::network::bind_inet(fd_a(), &sock_inet()))),
+        e!("network::connect_unix", SYS_connect, Zero, Unit, || unit(rusl::network::connect_unix(fd_a(), &sock_unix()))),
+        e!("network::connect_inet", SYS_connect, Zero, Unit, || unit(rusl::network::connect_inet(fd_a(), &sock_inet()))),
+        e!("network::listen", SYS_listen, Zero, Unit, || unit(rusl::network::listen(fd_a(), NonNegativeI32::try_new(8).unwrap()))),
+        e!("network::socket", SYS_socket, Id, I32, || {
+            fdr(rusl::network::socket(AddressFamily::AF_UNIX, SocketOptions::new(SocketType::SOCK_STREAM, SocketFlags::SOCK_CLOEXEC), 0))
+        }),
+        e!("network::get_unix_sock_name", SYS_getsockname, Zero, Unit, || unit(rusl::network::get_unix_sock_name(fd_a()))),
+        e!("network::get_inet_sock_name", SYS_getsockname, Zero, Unit, || unit(rusl::network::get_inet_sock_name(fd_a()))),
+        e!("network::sendmsg", SYS_sendmsg, Count, U64, || {
+            let io = [IoSlice::new(b"x")];
+            let g = MsgHdrBorrow::create_send(None, &io, None);
+            cnt(rusl::network::sendmsg(fd_a(), &g, 0))
+        }),
+        e!("network::recvmsg", SYS_recvmsg, Count, U64, || {
+            let mut b = [0u8; 8];
+            let mut io = [IoSliceMut::new(&mut b)];
+            let mut h = MsgHdrBorrow::create_recv(&mut io, None);
+            cnt(rusl::network::recvmsg(fd_a(), &mut h, 0))
+        }),
+        // ---- process
+        e!("process::fork", SYS_fork, Id, I32, || num(unsafe { rusl::process::fork() })),
+        e!("process::clone", SYS_clone, Id, I32, || num(unsafe { rusl::process::clone(&CloneArgs::new(CloneFlags::empty())) })),
+        e!("process::clone3", SYS_clone3, Id, U64, || num(unsafe { rusl::process::clone3(&mut Clone3Args::new(CloneFlags::empty())) })),
+        e!("process::execve", SYS_execve, NoReturn, Unit, || unit(unsafe { rusl::process::execve(p1(), core::ptr::null(), core::ptr::null()) })),
+        e!("process::get_pid", SYS_getpid, Id, I32, || Got::Ok(Some(rusl::process::get_pid() as i128)), infallible None),
+        e!("process::add_signal_action", SYS_rt_sigaction, Zero, Unit, || {
+            unit(unsafe { rusl::process::add_signal_action(rusl::process::CatchSignal::Hup, rusl::process::SaSignalaction::Dfl) })
+        }),
+        e!("process::wait_pid", SYS_wait4, Id, I32, || num(rusl::process::wait_pid(-1, WaitPidFlags::WNOHANG).map(|w| w.pid))),
+        // ---- select
+        e!("select::epoll_create", SYS_epoll_create1, Id, I32, || fdr(rusl::select::epoll_create(true))),
+        e!("select::epoll_ctl", SYS_epoll_ctl, Zero, Unit, || {
+            unit(rusl::select::epoll_ctl(fd_a(), EpollOp::Add, fd_b(), &EpollEvent::new(7, EpollEventMask::EPOLLIN)))
+        }),
+        e!("select::epoll_del", SYS_epoll_ctl, Zero, Unit, || unit(rusl::select::epoll_del(fd_a(), fd_b()))),
+        e!("select::epoll_wait", SYS_epoll_pwait, Count, U64, || {
+            let mut ev = [EpollEvent::new(0, EpollEventMask::empty()); 2];
+            cnt(rusl::select::epoll_wait(fd_a(), &mut ev, 0))
+        }),
+        e!("select::ppoll", SYS_ppoll, Count, U64, || {
+            let mut pf = [PollFd::new(fd_a(), PollEvents::POLLIN)];
+            cnt(rusl::select::ppoll(&mut pf, Some(&TimeSpec::new_zeroed()), None))
+        }),
+        // ---- time
+        e!("time::clock_get_real_time", SYS_clock_gettime, Zero, Unit, || {
+            let _ = rusl::time::clock_get_real_time();
+            Got::Ok(None)
+        }, infallible Some(fill_ts)),
+        e!("time::clock_get_monotonic_time", SYS_clock_gettime, Zero, Unit, || {
+            let _ = rusl::time::clock_get_monotonic_time();
+            Got::Ok(None)
+        }, infallible Some(fill_ts)),
+        e!("time::clock_get_time", SYS_clock_gettime, Zero, Unit, || unit(rusl::time::clock_get_time(ClockId::CLOCK_MONOTONIC)), fill fill_ts),
+        e!("time::nanosleep", SYS_nanosleep, Zero, Unit, || unit(rusl::time::nanosleep(&TimeSpec::new(0, 1), None))),
+        e!("time::nanosleep#rem", SYS_nanosleep, Zero, Unit, || {
+            let mut rem = TimeSpec::new_zeroed();
+            unit(rusl::time::nanosleep(&TimeSpec::new(0, 1), Some(&mut rem as *mut TimeSpec)))
+        }),
+        e!("time::nanosleep_same_ptr", SYS_nanosleep, Zero, Unit, || unit(rusl::time::nanosleep_same_ptr(&mut TimeSpec::new(0, 1)))),
+        // ---- futex
+        e!("futex::futex_wait", SYS_futex, Zero, Unit, || {
+            let a = AtomicU32::new(0);
+            unit(rusl::futex::futex_wait(&a, 1, FutexFlags::PRIVATE, Some(TimeSpec::new(0, 1000))))
+        }),
+        e!("futex::futex_wake", SYS_futex, Count, U64, || {
+            let a = AtomicU32::new(0);
+            cnt(rusl::futex::futex_wake(&a, 1))
+        }),
+        // ---- io_uring
+        e!("io_uring::io_uring_setup", SYS_io_uring_setup, Id, I32, || {
+            let mut p = IoUringParams::new(IoUringParamFlags::empty(), 0, 0);
+            fdr(rusl::io_uring::io_uring_setup(8, &mut p))
+        }),
+        e!("io_uring::io_uring_register_files", SYS_io_uring_register, Zero, Unit, || unit(rusl::io_uring::io_uring_register_files(fd_a(), &[fd_b()]))),
+        e!("io_uring::io_uring_register_io_slices", SYS_io_uring_register, Zero, Unit, || {
+            let mut b = [0u8; 8];
+            let io = [IoSliceMut::new(&mut b)];
+            unit(rusl::io_uring::io_uring_register_io_slices(fd_a(), &io))
+        }),
+        e!("io_uring::io_uring_register_buffers", SYS_io_uring_register, Zero, Unit, || {
+            let mut b = [0u8; 8];
+            let io = [IoSliceMut::new(&mut b)];
+            unit(unsafe { rusl::io_uring::io_uring_register_buffers(fd_a(), &io) })
+        }),
+        e!("io_uring::io_uring_enter", SYS_io_uring_enter, Count, U64, || {
+            cnt(rusl::io_uring::io_uring_enter(fd_a(), 1, 0, IoUringEnterFlags::IORING_ENTER_GETEVENTS))
+        }),
+        // ---- ioctl and its thin callers
+        e!("ioctl::ioctl", SYS_ioctl, Count, U64, || cnt(unsafe { rusl::ioctl::ioctl(fd_a(), 0x5401, 0) })),
+        e!("termios::tcgetattr", SYS_ioctl, Zero, Unit, || unit(rusl::termios::tcgetattr(fd_a())), fill fill_termios),
+        e!("termios::tcsetattr", SYS_ioctl, Zero, Unit, || {
+            let t: Termios = unsafe { core::mem::zeroed() };
+            unit(rusl::termios::tcsetattr(fd_a(), SetAction::NOW, &t))
+        }),
+        e!("usb::bulk_transfer", SYS_ioctl, Count, U64, || {
+            let mut b = [0u8; 8];
+            cnt(rusl::usb::bulk_transfer(fd_a(), 1, &mut b, 10))
+        }),
+        e!("usb::claim_interface", SYS_ioctl, Zero, Unit, || unit(rusl::usb::claim_interface(fd_a(), 0))),
+        e!("usb::reset_usb_device", SYS_ioctl, Zero, Unit, || unit(rusl::usb::reset_usb_device(fd_a()))),
+        e!("usb::release_interface", SYS_ioctl, Zero, Unit, || unit(rusl::usb::release_interface(fd_a(), 0))),
+        e!("hidio::get_hid_dev_dev_info", SYS_ioctl, Zero, Unit, || unit(rusl::hidio::get_hid_dev_dev_info(fd_a())), fill fill_hid),
+    ]
+}
+
+/// Scanned functions that deliberately have no invocation entry.
+const EXCLUDED: &[(&str, &str)] = &[
+    (
+        "process::exit",
+        "never returns: the wrapper ends in unreachable_unchecked(), so a suppressed exit(2) would be undefined behaviour; it has no result to decode",
+    ),
+    (
+        "io_uring::setup_io_uring",
+        "composite, not a raw wrapper: io_uring_setup + 2-3 mmap calls + reads of the mapped rings; each constituent wrapper has its own entry (unistd::mmap, io_uring::io_uring_setup)",
+    ),
+];
+
+// ---------------------------------------------------------------------------
+// the forced-value plan
+
+struct Force<'a> {
+    /// answer to the i-th issue; the last one is repeated
+    script: &'a [i64],
+    fill: Option<fn(&[u64; 6])>,
+    first_nr: i64,
+    /// the wrapper went past HORIZON issues and was given terminating answers
+    over: bool,
+    name: &'static str,
+}
+
+fn is_err(v: i64) -> bool {
+    (-4095..=-1).contains(&v)
+}
+
+impl Plan for Force<'_> {
+    fn decide(&mut self, idx: usize, nr: i64, args: &[u64; 6]) -> Decision {
+        if idx == 0 {
+            self.first_nr = nr;
+        }
+        let mut v = if idx < self.script.len() { self.script[idx] } else { *self.script.last().unwrap() };
+        if idx >= HORIZON.max(self.script.len() + 2) {
+            self.over = true;
+            // terminating answers: plain success first, then a plain error
+            v = if idx < 2 * HORIZON { 0 } else { -22 };
+            if idx >= 4 * HORIZON {
+                // still spinning whatever the answer: die, attributed to the case
+                let c = format!("{{\"op\":\"{}:livelock\",\"v\":\"{}\"}}", self.name, show_script(self.script));
+                set_case(&c);
+                unsafe { libc::abort() };
+            }
+        }
+        if !is_err(v) {
+            if let Some(f) = self.fill {
+                f(args);
+            }
+        }
+        Decision::Force(v)
+    }
+}
+
+fn show_script(s: &[i64]) -> String {
+    s.iter().map(|v| v.to_string()).collect::<Vec<_>>().join(",")
+}
+fn parse_script(s: &str) -> Vec<i64> {
+    s.split(',').filter_map(|x| x.trim().parse::<i64>().ok()).collect()
+}
+
+fn carries(ty: Ty, v: i64) -> Option<i128> {
+    match ty {
+        Ty::Unit => None,
+        Ty::I32 => (i32::MIN as i64 <= v && v <= i32::MAX as i64).then_some(v as i128),
+        Ty::U32 => (0 <= v && v <= u32::MAX as i64).then_some(v as i128),
+        Ty::I64 => Some(v as i128),
+        Ty::U64 => Some(v as u64 as i128),
+    }
+}
+
+struct Obs {
+    got: Result<Got, String>,
+    calls: Vec<i64>,
+    first_nr: i64,
+    over: bool,
+}
+
+fn invoke(e: &Entry, script: &[i64]) -> Obs {
+    let mut plan = Force { script, fill: e.fill, first_nr: -1, over: false, name: e.name };
+    let call = e.call;
+    let res = catch(|| sysx::run(&mut plan, call));
+    match res {
+        Ok((got, log)) => Obs { got: Ok(got), calls: log.iter().map(|c| c.ret).collect(), first_nr: plan.first_nr, over: plan.over },
+        Err(p) => Obs { got: Err(p), calls: vec![], first_nr: plan.first_nr, over: plan.over },
+    }
+}
+
+fn may_retry_ebusy(e: &Entry) -> bool {
+    matches!(base_name(e.name), "unistd::dup2" | "unistd::dup3")
+}
+
+/// One case: the wrapper invoked once, its call(s) answered by `script`.
+fn one_case(e: &Entry, script: &[i64], r: &mut Report, verbose: bool) {
+    r.eval();
+    r.nontrivial_unique();
+    let vs = show_script(script);
+    set_case(&format!("{{\"op\":\"{}\",\"v\":\"{}\"}}", e.name, vs));
+    let o = invoke(e, script);
+    clear_case();
+    let case = || json!({"op": e.name, "v": vs});
+    let key = |k: &str| format!("C09:{}:{k}", base_name(e.name));
+    if verbose {
+        println!("{}: answers [{}] -> {:?}; issued {} call(s) {:?}", e.name, vs, o.got, o.calls.len(), o.calls);
+    }
+    let got = match o.got {
+        Err(p) => {
+            r.outcome("VIOLATION/panic");
+            r.violation(&key("panic"), format!("{} panicked when the kernel result was forced to {vs}: {p}", e.name), case());
+            return;
+        }
+        Ok(g) => g,
+    };
+    if o.first_nr != e.nr && !o.calls.is_empty() {
+        r.cap(format!("harness: {} issued {} but the table expects {}", e.name, sysx::name(o.first_nr), sysx::name(e.nr)));
+        r.note("machinery-failure");
+        return;
+    }
+    // --- how often the call was issued
+    let n = o.calls.len();
+    let retry_ok = may_retry_ebusy(e) && n >= 1 && o.calls[..n - 1].iter().all(|&a| a == -EBUSY);
+    let mut count_ok = true;
+    if n != 1 && !retry_ok {
+        count_ok = false;
+        let v_last_scripted = *script.last().unwrap();
+        if o.over && !is_err(v_last_scripted) {
+            r.outcome("VIOLATION/retries-on-success-value");
+            r.violation(
+                &key("retries-on-success-value"),
+                format!(
+                    "{} keeps re-issuing its system call as long as the kernel returns the success value {v_last_scripted}: {n} issues (answers {:?}; only ended by the harness answering differently after {HORIZON})",
+                    e.name, o.calls
+                ),
+                case(),
+            );
+        } else {
+            r.outcome("VIOLATION/issued-N-times");
+            r.violation(
+                &key("issued-N-times"),
+                format!("{} issued its system call {n} times in one invocation (answers {:?}); exactly one is allowed", e.name, o.calls),
+                case(),
+            );
         }
     }
-    let mut buf = [0u8; 8];
-    let (r, log) = run(&mut ForceRead, || rusl::unistd::read(rusl::platform::STDIN, &mut buf));
-    println!("read forced -4095 => {r:?}; {} calls", log.len());
-    let mut fk = FailKth { k: 0, errno: 24, seen: 0, hit: false, pred: |nr, _| nr == libc::SYS_pipe2, execute_anyway: false };
-    let (r, _log) = run(&mut fk, || rusl::unistd::pipe2(rusl::platform::OpenFlags::O_CLOEXEC));
-    println!("pipe2 failed 1st => {:?} hit={}", r.map(|_| ()), fk.hit);
-    // fork pass-through with re-arm in the child
-    let (r, log) = run(&mut PassAll, || unsafe {
-        let pid = rusl::process::fork().unwrap();
-        if pid == 0 {
-            let me = rusl::process::get_pid();
-            rusl::process::exit(if me > 0 { 7 } else { 1 });
+    if script.len() > 1 && count_ok {
+        // dup2/dup3 under -EBUSY×k then w: giving up at the first EBUSY and repeating are both allowed
+        r.outcome(if n == 1 { "ebusy-script/gave-up-at-first-EBUSY" } else { "ebusy-script/repeated-until-other-answer" });
+    }
+    // --- decoding of the value the wrapper saw last
+    let v = o.calls.last().copied().unwrap_or(script[0]);
+    match (is_err(v), got) {
+        (true, Got::Err(Some(c))) if c as i64 == -v => r.outcome("err/errno-exact"),
+        (true, Got::Err(c)) => {
+            r.outcome("VIOLATION/wrong-errno");
+            r.violation(
+                &key("wrong-errno"),
+                format!("{}: kernel result {v} must give Err with errno {}, got errno {c:?}", e.name, -v),
+                case(),
+            );
         }
-        let w = rusl::process::wait_pid(pid, rusl::platform::WaitPidFlags::empty()).unwrap();
-        w.status
-    });
-    println!("fork+wait via seam: status {r:?}; calls {:?}", log.iter().map(|c| name(c.nr)).collect::<Vec<_>>());
+        (true, Got::Ok(x)) => {
+            if e.infallible {
+                // cannot happen: error values are not forced on infallible signatures
+                r.outcome("infallible/error-discarded");
+            } else {
+                r.outcome("VIOLATION/error-reported-as-success");
+                r.violation(
+                    &key("error-reported-as-success"),
+                    format!("{}: kernel result {v} (errno {}) was reported as Ok({x:?})", e.name, -v),
+                    case(),
+                );
+            }
+        }
+        (false, Got::Err(c)) => {
+            r.outcome("VIOLATION/success-reported-as-error");
+            r.violation(
+                &key("success-reported-as-error"),
+                format!("{}: kernel result {v} ({:#x}) is outside [-4095,-1] but was reported as Err(errno {c:?})", e.name, v as u64),
+                case(),
+            );
+        }
+        (false, Got::Ok(x)) => match (carries(e.ty, v), x) {
+            (Some(want), Some(have)) if want != have => {
+                r.outcome("VIOLATION/value-changed");
+                r.violation(
+                    &key("value-changed"),
+                    format!("{}: kernel result {v} ({:#x}) came back as Ok({have}) ({:?})", e.name, v as u64, e.ty),
+                    case(),
+                );
+            }
+            (Some(_), Some(_)) => {
+                if !count_ok {
+                } else if (-4096 - 65536..=-4096).contains(&v) {
+                    r.outcome("ok/boundary-below-errno-range-preserved")
+                } else if e.infallible {
+                    r.outcome("ok/infallible-value-preserved")
+                } else if v >= 0 && v <= 4095 {
+                    r.outcome("ok/errno-sized-value-preserved")
+                } else {
+                    r.outcome("ok/large-value-preserved")
+                }
+            }
+            (Some(_), None) => {
+                r.cap(format!("harness: {} is typed {:?} but its invocation returns no number", e.name, e.ty));
+                r.note("machinery-failure");
+            }
+            (None, _) => {
+                if !count_ok {
+                } else if n > 1 {
+                    r.outcome(&format!("ok/after-{}-EBUSY-retries", n - 1))
+                } else if e.ty == Ty::Unit {
+                    r.outcome(if v == 0 { "ok/unit-zero" } else { "ok/unit-nonzero-success" })
+                } else {
+                    r.outcome("ok/value-outside-result-type(ok-only)")
+                }
+            }
+        },
+    }
+}
+
+// ---------------------------------------------------------------------------
+// the forced value sets
+
+struct Bounds {
+    /// every success value 0..=small_max is forced
+    small_max: i64,
+    /// every value neg_lo..=-4096 (the band just below the errno range) is forced
+    neg_lo: i64,
+}
+fn bounds(thorough: bool) -> Bounds {
+    if thorough {
+        Bounds { small_max: 1 << 20, neg_lo: -4096 - 65536 }
+    } else {
+        Bounds { small_max: 65536, neg_lo: -4097 }
+    }
+}
+
+fn values(e: &Entry, thorough: bool) -> Vec<i64> {
+    let b = bounds(thorough);
+    let mut v: Vec<i64> = Vec::new();
+    let succ = e.dom != Dom::NoReturn;
+    // simplest first: 0 and the errno-sized successes, then the errors, then the band below the
+    // errno range, then the large patterns, then the rest of the small range
+    if succ {
+        v.extend(0..=4095);
+    }
+    if !e.infallible {
+        v.extend((1..=4095).map(|x: i64| -x));
+    }
+    if succ {
+        v.extend((b.neg_lo..=-4096).rev());
+        let mut extra: Vec<i64> = vec![i32::MAX as i64];
+        // single-bit patterns and their neighbours that fit 31 bits: for every result type
+        for k in 12..=30 {
+            extra.extend([(1i64 << k) - 1, 1i64 << k]);
+        }
+        if matches!(e.ty, Ty::U32 | Ty::I64 | Ty::U64) {
+            extra.extend([1i64 << 31, 0xFFFF_F000, 0xFFFF_FFFF]);
+        }
+        if matches!(e.ty, Ty::I64 | Ty::U64) {
+            for k in 32..=62 {
+                extra.extend([(1i64 << k) - 1, 1i64 << k, -(1i64 << k), -(1i64 << k) - 1]);
+            }
+            extra.extend([
+                0x7fff_ffff_f000,
+                isize::MAX as i64,
+                i64::MIN,
+                i64::MIN + 4095,
+                i64::MIN + 4096,
+                -(1i64 << 31),
+                -(1i64 << 31) - 1,
+                -65536,
+                -8192,
+                -4098,
+            ]);
+        }
+        if e.dom == Dom::Addr {
+            extra.extend((1..=256i64).map(|k| k << 12));
+            extra.extend(
+                [
+                    0x5555_5555_4000u64,
+                    0x7f12_3456_7000,
+                    0x7fff_ffff_e000,
+                    0x7fff_ffff_f000,
+                    0x8000_0000_0000,
+                    0xffff_8000_0000_0000,
+                    0xffff_ffff_8000_0000,
+                    0xffff_ffff_ffff_0000,
+                    0xffff_ffff_ffff_e000,
+                    0xffff_ffff_ffff_f000,
+                ]
+                .map(|x| x as i64),
+            );
+        }
+        let mut seen = std::collections::HashSet::new();
+        for x in extra {
+            let in_ranges = (0..=b.small_max).contains(&x) || (b.neg_lo..=-1).contains(&x);
+            if !in_ranges && seen.insert(x) {
+                v.push(x);
+            }
+        }
+        v.extend(4096..=b.small_max);
+    }
+    v
+}
+
+/// dup2/dup3 only: `-EBUSY` k times, then a final answer
+fn ebusy_scripts() -> Vec<Vec<i64>> {
+    let mut s = Vec::new();
+    for k in 1..=3usize {
+        for w in [0i64, 5, 16, -9, -24] {
+            let mut x = vec![-EBUSY; k];
+            x.push(w);
+            s.push(x);
+        }
+    }
+    s
+}
+
+extern "C" fn on_alarm(_: libc::c_int) {
+    // a wrapper that spins without issuing calls: die attributed to the current case
+    unsafe { libc::abort() };
+}
+
+fn run_wrapper(e: &Entry, thorough: bool) -> Report {
+    let mut r = Report::new();
+    unsafe {
+        libc::signal(libc::SIGALRM, on_alarm as extern "C" fn(libc::c_int) as usize);
+    }
+    let vals = values(e, thorough);
+    for (i, &v) in vals.iter().enumerate() {
+        if i % 512 == 0 {
+            unsafe { libc::alarm(20) };
+        }
+        one_case(e, &[v], &mut r, false);
+    }
+    if may_retry_ebusy(e) {
+        for s in ebusy_scripts() {
+            one_case(e, &s, &mut r, false);
+        }
+    }
+    unsafe { libc::alarm(0) };
+    r.outcome_n(&format!("wrappers/{:?}-{:?}", e.dom, e.ty), 1);
+    r
+}
+
+// ---------------------------------------------------------------------------
+
+fn scanned_key(m: &str, f: &str) -> String {
+    format!("{}::{f}", m.split("::").next().unwrap_or(m))
+}
+
+/// Every scanned function must be covered or excluded; returns (covered, excluded, missing).
+fn completeness(tab: &[Entry]) -> (Vec<String>, Vec<String>, Vec<String>, Vec<String>) {
+    let covered: std::collections::BTreeSet<&str> = tab.iter().map(|e| base_name(e.name)).collect();
+    let mut cov = Vec::new();
+    let mut exc = Vec::new();
+    let mut missing = Vec::new();
+    let mut ambiguous = Vec::new();
+    let mut keys = std::collections::BTreeMap::<String, usize>::new();
+    for (m, f, _) in SCANNED {
+        *keys.entry(scanned_key(m, f)).or_insert(0) += 1;
+    }
+    for (k, n) in &keys {
+        if *n > 1 {
+            ambiguous.push(k.clone());
+        }
+        if covered.contains(k.as_str()) {
+            cov.push(k.clone());
+        } else if EXCLUDED.iter().any(|x| x.0 == k) {
+            exc.push(k.clone());
+        } else {
+            missing.push(k.clone());
+        }
+    }
+    (cov, exc, missing, ambiguous)
+}
+
+fn c09(args: &Args) -> Report {
+    let tab = table();
+    let (cov, exc, missing, ambiguous) = completeness(&tab);
+    let n_entries = tab.len();
+    let mut items = Vec::new();
+    let thorough = args.thorough;
+    let mut n_cases = 0usize;
+    for e in tab {
+        n_cases += values(&e, thorough).len() + if may_retry_ebusy(&e) { ebusy_scripts().len() } else { 0 };
+        items.push(isolated(e.name, move || run_wrapper(&e, thorough)));
+    }
+    // rotate the start order by the seed (no effect on the set of cases)
+    if !items.is_empty() {
+        let k = (args.seed as usize) % items.len();
+        items.rotate_left(k);
+    }
+    let mut r = run_isolated(items, &args.out, "C09");
+    for m in &missing {
+        r.cap(format!("wrapper {m} not covered (found by the source scan, neither in the invocation table nor in EXCLUDED)"));
+    }
+    for a in &ambiguous {
+        r.cap(format!("wrapper name {a} is ambiguous in the source scan (two files define it)"));
+    }
+    if !missing.is_empty() || !ambiguous.is_empty() {
+        r.note("machinery-failure");
+    }
+    if SCANNED.len() < 60 {
+        r.cap(format!("source scan of {SCANNED_SRC} found only {} wrappers: scanner broken?", SCANNED.len()));
+        r.note("machinery-failure");
+    }
+    if r.evaluations != n_cases as u64 && r.violations.keys().all(|k| !k.ends_with(":crash")) {
+        r.cap(format!("{} cases planned, {} evaluated", n_cases, r.evaluations));
+    }
+    let bd = bounds(thorough);
+    r.rule = format!(
+        "for each of {n_entries} invocation entries ({} scanned exported rusl functions that issue a system call, {} excluded with a reason): the real wrapper is called once with harmless arguments, \
+         its system call is suppressed and the raw result forced to v, for EVERY v in: 0..={} ; every error -1..=-4095 (fallible signatures); the band just below the errno range {}..=-4096; i32::MAX; \
+         2^k-1 and 2^k for k=12..=30; and — where the result type can carry them — 2^31, 0xFFFFF000, u32::MAX (u32/64-bit results), 2^k-1, 2^k, -2^k, -2^k-1 for k=32..=62, 0x7fff_ffff_f000, isize::MAX, i64::MIN(+4095,+4096), \
+         -2^31(-1), -65536, -8192, -4098 (64-bit results), page-aligned addresses k<<12 (k=1..=256) and ten high addresses up to 0xffff_ffff_ffff_f000 (mmap); execve only the errors (it does not return on success); \
+         get_pid / clock_get_real_time / clock_get_monotonic_time only the non-error values (no error channel in the signature). dup2/dup3 additionally -EBUSY×k (k=1..=3) followed by each of 0,5,16,-9,-24. \
+         Each (entry, answer script) is generated exactly once; every case is non-trivial (one real wrapper execution through the seam). Oracle: Err ⇔ v∈[-4095,-1] with errno −v; else Ok with v unchanged \
+         when the result type represents it; exactly one issue (dup2/dup3: more only after -EBUSY).",
+        cov.len(),
+        exc.len(),
+        bd.small_max,
+        bd.neg_lo
+    );
+    r.bound("wrappers_scanned", SCANNED.len());
+    r.bound("wrappers_scanned_direct_syscall", SCANNED.iter().filter(|s| s.2).count());
+    r.bound("wrappers_covered", cov.len());
+    r.bound("invocation_entries", n_entries);
+    r.bound("wrappers_excluded", json!(EXCLUDED.iter().map(|x| format!("{}: {}", x.0, x.1)).collect::<Vec<_>>()));
+    r.bound("scanned_source", SCANNED_SRC);
+    r.bound("scanned_files", SCANNED_FILES);
+    r.bound("scanned_test_files_skipped", SCANNED_TEST_FILES_SKIPPED);
+    r.bound("small_success_values", format!("0..={}", bd.small_max));
+    r.bound("band_below_errno_range", format!("{}..=-4096", bd.neg_lo));
+    r.bound("error_values", "-4095..=-1 (all)");
+    r.bound("retry_horizon", HORIZON);
+    r.bound("cases_planned", n_cases);
+    r.sample(json!({"op":"unistd::read","v":"-4095","expect":"Err(errno 4095), one issue"}));
+    r.sample(json!({"op":"unistd::dup3","v":"16","expect":"Ok(()), one issue"}));
+    r.sample(json!({"op":"unistd::mmap","v":"-4096","expect":"Ok(0xffff_ffff_ffff_f000), one issue"}));
+    r.sample(json!({"op":"process::execve","v":"-2","expect":"Err(errno 2), one issue"}));
+    r.sample(json!({"op":"unistd::open","v":"2147483647","expect":"Ok(fd 2147483647)"}));
+    r.sample(json!({"op":"unistd::dup3","v":"-16,-16,5","expect":"Err(EBUSY) after one issue, or three issues and Ok"}));
+    r.sample(json!({"op":"unistd::lseek","v":"9223372036854775807","expect":"Ok(i64::MAX)"}));
+    r
+}
+
+fn replay(v: &Value, r: &mut Report) {
+    let op = v["op"].as_str().unwrap_or("");
+    let op = op.strip_suffix(":livelock").unwrap_or(op);
+    let script = parse_script(v["v"].as_str().unwrap_or(""));
+    let tab = table();
+    let Some(e) = tab.iter().find(|e| e.name == op) else {
+        println!("unknown wrapper {op}");
+        r.cap(format!("unknown wrapper {op}"));
+        return;
+    };
+    if script.is_empty() {
+        println!("no forced value in the replay file");
+        return;
+    }
+    println!("replaying {op} with the kernel's answers forced to [{}]", show_script(&script));
+    unsafe { libc::alarm(20) };
+    one_case(e, &script, r, true);
+    unsafe { libc::alarm(0) };
+    for v in r.violations.values() {
+        println!("VIOLATED {}: {}", v.key, v.desc);
+    }
+    if r.violations.is_empty() {
+        println!("no violation");
+    }
+}
+
+fn main() {
+    let args = parse_args();
+    install_panic_hook();
+    if args.rest.iter().any(|a| a == "--list") {
+        let tab = table();
+        let (cov, exc, missing, amb) = completeness(&tab);
+        println!("scanned {} ({} direct), covered {}, excluded {}, missing {:?}, ambiguous {:?}", SCANNED.len(), SCANNED.iter().filter(|s| s.2).count(), cov.len(), exc.len(), missing, amb);
+        for (m, f, d) in SCANNED {
+            println!("  {m} :: {f} {}", if *d { "" } else { "(indirect)" });
+        }
+        return;
+    }
+    if let Some(p) = &args.replay {
+        let v = read_replay(p);
+        let mut r = Report::new();
+        replay(&v, &mut r);
+        println!("{}", serde_json::to_string_pretty(&r.to_json()).unwrap());
+        std::process::exit(if r.violations.is_empty() { 0 } else { 1 });
+    }
+    let phase = args.phase.clone().unwrap_or_else(|| "c09".into());
+    let r = match phase.as_str() {
+        "c09" => c09(&args),
+        _ => panic!("unknown phase"),
+    };
+    r.write(&args.out);
 }
